@@ -128,6 +128,34 @@ func init() {
 				{File: fw, Old: "\t\t\t\tt.sortRoutes(key)\n\t\t\t\treturn true\n\t\t\t}\n\t\t\treturn false // Older/worse route\n", New: "\t\t\t\tt.sortRoutes(key)\n\t\t\t\tt.mu.Unlock()\n\t\t\t\treturn true\n\t\t\t}\n\t\t\tt.mu.Unlock()\n\t\t\treturn false // Older/worse route\n"},
 				{File: fw, Old: "\tt.sortRoutes(key)\n\treturn true\n}", New: "\tt.sortRoutes(key)\n\tt.mu.Unlock()\n\treturn true\n}"},
 			}},
+			{Name: "round3 rewrite: IndexFunc-found slot, early returns, switch-form scalar predicate, slices.Contains", Edits: []Edit{
+				{File: tb, Old: "import (\n\t\"fmt\"\n", New: "import (\n\t\"slices\"\n\t\"fmt\"\n"},
+				{File: tb, Old: "\t// Check for routing loops (is our ID in the path?)\n\tfor _, id := range route.Path {\n\t\tif id == t.localID {\n\t\t\treturn false // Loop detected\n\t\t}\n\t}\n", New: "\tif slices.Contains(route.Path, t.localID) {\n\t\treturn false\n\t}\n"},
+				{File: tb, Old: "\t// Check if we already have a route from this origin\n\texisting := t.routes[key]\n\tfor i, r := range existing {\n\t\tif r.OriginAgent == route.OriginAgent {\n\t\t\t// Update if newer sequence or better metric\n\t\t\tif route.Sequence > r.Sequence ||\n\t\t\t\t(route.Sequence == r.Sequence && route.Metric < r.Metric) {\n\t\t\t\tcloned := route.Clone()\n\t\t\t\tcloned.LastUpdate = now\n\t\t\t\tt.routes[key][i] = cloned\n\t\t\t\tt.sortRoutes(key)\n\t\t\t\treturn true\n\t\t\t}\n\t\t\treturn false // Older/worse route\n\t\t}\n\t}\n\n\t// New route from this origin\n\tcloned := route.Clone()\n\tcloned.LastUpdate = now\n\tt.routes[key] = append(t.routes[key], cloned)\n\tt.sortRoutes(key)\n\treturn true\n}\n", New: "\tbucket := t.routes[key]\n\tslot := slices.IndexFunc(bucket, func(held *Route) bool {\n\t\treturn held.OriginAgent == route.OriginAgent\n\t})\n\n\tif slot >= 0 && !supersedes(route.Sequence, route.Metric, bucket[slot].Sequence, bucket[slot].Metric) {\n\t\treturn false\n\t}\n\n\tstored := route.Clone()\n\tstored.LastUpdate = now\n\tif slot < 0 {\n\t\tt.routes[key] = append(bucket, stored)\n\t} else {\n\t\tbucket[slot] = stored\n\t}\n\tt.sortRoutes(key)\n\treturn true\n}\n\nfunc supersedes(newSeq uint64, newMetric uint16, heldSeq uint64, heldMetric uint16) bool {\n\tswitch {\n\tcase newSeq > heldSeq:\n\t\treturn true\n\tcase newSeq < heldSeq:\n\t\treturn false\n\tdefault:\n\t\treturn heldMetric > newMetric\n\t}\n}\n"},
+			}},
+			{Name: "round3: IndexFunc form, predicate accepts an equal metric", ExpectRule: "C10.R1", ExpectKey: "routing.Table)", Edits: []Edit{
+				{File: tb, Old: "import (\n\t\"fmt\"\n", New: "import (\n\t\"slices\"\n\t\"fmt\"\n"},
+				{File: tb, Old: "\t// Check for routing loops (is our ID in the path?)\n\tfor _, id := range route.Path {\n\t\tif id == t.localID {\n\t\t\treturn false // Loop detected\n\t\t}\n\t}\n", New: "\tif slices.Contains(route.Path, t.localID) {\n\t\treturn false\n\t}\n"},
+				{File: tb, Old: "\t// Check if we already have a route from this origin\n\texisting := t.routes[key]\n\tfor i, r := range existing {\n\t\tif r.OriginAgent == route.OriginAgent {\n\t\t\t// Update if newer sequence or better metric\n\t\t\tif route.Sequence > r.Sequence ||\n\t\t\t\t(route.Sequence == r.Sequence && route.Metric < r.Metric) {\n\t\t\t\tcloned := route.Clone()\n\t\t\t\tcloned.LastUpdate = now\n\t\t\t\tt.routes[key][i] = cloned\n\t\t\t\tt.sortRoutes(key)\n\t\t\t\treturn true\n\t\t\t}\n\t\t\treturn false // Older/worse route\n\t\t}\n\t}\n\n\t// New route from this origin\n\tcloned := route.Clone()\n\tcloned.LastUpdate = now\n\tt.routes[key] = append(t.routes[key], cloned)\n\tt.sortRoutes(key)\n\treturn true\n}\n", New: "\tbucket := t.routes[key]\n\tslot := slices.IndexFunc(bucket, func(held *Route) bool {\n\t\treturn held.OriginAgent == route.OriginAgent\n\t})\n\n\tif slot >= 0 && !supersedes(route.Sequence, route.Metric, bucket[slot].Sequence, bucket[slot].Metric) {\n\t\treturn false\n\t}\n\n\tstored := route.Clone()\n\tstored.LastUpdate = now\n\tif slot < 0 {\n\t\tt.routes[key] = append(bucket, stored)\n\t} else {\n\t\tbucket[slot] = stored\n\t}\n\tt.sortRoutes(key)\n\treturn true\n}\n\nfunc supersedes(newSeq uint64, newMetric uint16, heldSeq uint64, heldMetric uint16) bool {\n\tswitch {\n\tcase newSeq > heldSeq:\n\t\treturn true\n\tcase newSeq < heldSeq:\n\t\treturn false\n\tdefault:\n\t\treturn heldMetric >= newMetric\n\t}\n}\n"},
+			}},
+			{Name: "round3: IndexFunc form, slot searched by next hop", ExpectRule: "C10.R1", ExpectKey: "routing.Table)", Edits: []Edit{
+				{File: tb, Old: "import (\n\t\"fmt\"\n", New: "import (\n\t\"slices\"\n\t\"fmt\"\n"},
+				{File: tb, Old: "\t// Check for routing loops (is our ID in the path?)\n\tfor _, id := range route.Path {\n\t\tif id == t.localID {\n\t\t\treturn false // Loop detected\n\t\t}\n\t}\n", New: "\tif slices.Contains(route.Path, t.localID) {\n\t\treturn false\n\t}\n"},
+				{File: tb, Old: "\t// Check if we already have a route from this origin\n\texisting := t.routes[key]\n\tfor i, r := range existing {\n\t\tif r.OriginAgent == route.OriginAgent {\n\t\t\t// Update if newer sequence or better metric\n\t\t\tif route.Sequence > r.Sequence ||\n\t\t\t\t(route.Sequence == r.Sequence && route.Metric < r.Metric) {\n\t\t\t\tcloned := route.Clone()\n\t\t\t\tcloned.LastUpdate = now\n\t\t\t\tt.routes[key][i] = cloned\n\t\t\t\tt.sortRoutes(key)\n\t\t\t\treturn true\n\t\t\t}\n\t\t\treturn false // Older/worse route\n\t\t}\n\t}\n\n\t// New route from this origin\n\tcloned := route.Clone()\n\tcloned.LastUpdate = now\n\tt.routes[key] = append(t.routes[key], cloned)\n\tt.sortRoutes(key)\n\treturn true\n}\n", New: "\tbucket := t.routes[key]\n\tslot := slices.IndexFunc(bucket, func(held *Route) bool {\n\t\treturn held.NextHop == route.NextHop\n\t})\n\n\tif slot >= 0 && !supersedes(route.Sequence, route.Metric, bucket[slot].Sequence, bucket[slot].Metric) {\n\t\treturn false\n\t}\n\n\tstored := route.Clone()\n\tstored.LastUpdate = now\n\tif slot < 0 {\n\t\tt.routes[key] = append(bucket, stored)\n\t} else {\n\t\tbucket[slot] = stored\n\t}\n\tt.sortRoutes(key)\n\treturn true\n}\n\nfunc supersedes(newSeq uint64, newMetric uint16, heldSeq uint64, heldMetric uint16) bool {\n\tswitch {\n\tcase newSeq > heldSeq:\n\t\treturn true\n\tcase newSeq < heldSeq:\n\t\treturn false\n\tdefault:\n\t\treturn heldMetric > newMetric\n\t}\n}\n"},
+			}},
+			{Name: "round3: IndexFunc form, loop check dropped", ExpectRule: "C10.R2", ExpectKey: "routing.Table)", Edits: []Edit{
+				{File: tb, Old: "import (\n\t\"fmt\"\n", New: "import (\n\t\"slices\"\n\t\"fmt\"\n"},
+				{File: tb, Old: "\t// Check for routing loops (is our ID in the path?)\n\tfor _, id := range route.Path {\n\t\tif id == t.localID {\n\t\t\treturn false // Loop detected\n\t\t}\n\t}\n", New: "\t_ = slices.Contains(route.Path, t.localID)\n"},
+				{File: tb, Old: "\t// Check if we already have a route from this origin\n\texisting := t.routes[key]\n\tfor i, r := range existing {\n\t\tif r.OriginAgent == route.OriginAgent {\n\t\t\t// Update if newer sequence or better metric\n\t\t\tif route.Sequence > r.Sequence ||\n\t\t\t\t(route.Sequence == r.Sequence && route.Metric < r.Metric) {\n\t\t\t\tcloned := route.Clone()\n\t\t\t\tcloned.LastUpdate = now\n\t\t\t\tt.routes[key][i] = cloned\n\t\t\t\tt.sortRoutes(key)\n\t\t\t\treturn true\n\t\t\t}\n\t\t\treturn false // Older/worse route\n\t\t}\n\t}\n\n\t// New route from this origin\n\tcloned := route.Clone()\n\tcloned.LastUpdate = now\n\tt.routes[key] = append(t.routes[key], cloned)\n\tt.sortRoutes(key)\n\treturn true\n}\n", New: "\tbucket := t.routes[key]\n\tslot := slices.IndexFunc(bucket, func(held *Route) bool {\n\t\treturn held.OriginAgent == route.OriginAgent\n\t})\n\n\tif slot >= 0 && !supersedes(route.Sequence, route.Metric, bucket[slot].Sequence, bucket[slot].Metric) {\n\t\treturn false\n\t}\n\n\tstored := route.Clone()\n\tstored.LastUpdate = now\n\tif slot < 0 {\n\t\tt.routes[key] = append(bucket, stored)\n\t} else {\n\t\tbucket[slot] = stored\n\t}\n\tt.sortRoutes(key)\n\treturn true\n}\n\nfunc supersedes(newSeq uint64, newMetric uint16, heldSeq uint64, heldMetric uint16) bool {\n\tswitch {\n\tcase newSeq > heldSeq:\n\t\treturn true\n\tcase newSeq < heldSeq:\n\t\treturn false\n\tdefault:\n\t\treturn heldMetric > newMetric\n\t}\n}\n"},
+			}},
+			{Name: "round3 rewrite: loop check through a method of the route", Edits: []Edit{
+				{File: fw, Old: "\t// Check for routing loops (is our ID in the path?)\n\tfor _, id := range route.Path {\n\t\tif id == t.localID {\n\t\t\treturn false // Loop detected\n\t\t}\n\t}\n", New: "\tif route.passesThrough(t.localID) {\n\t\treturn false\n\t}\n"},
+				{File: fw, Old: "// sortRoutes sorts routes for a key by metric (lowest first).\n", New: "func (r *ForwardRoute) passesThrough(id identity.AgentID) bool {\n\tfor _, hop := range r.Path {\n\t\tif hop == id {\n\t\t\treturn true\n\t\t}\n\t}\n\treturn false\n}\n\n// sortRoutes sorts routes for a key by metric (lowest first).\n"},
+			}},
+			{Name: "round3: route-method loop check asked about the origin", ExpectRule: "C10.R2", ExpectKey: "ForwardTable", Edits: []Edit{
+				{File: fw, Old: "\t// Check for routing loops (is our ID in the path?)\n\tfor _, id := range route.Path {\n\t\tif id == t.localID {\n\t\t\treturn false // Loop detected\n\t\t}\n\t}\n", New: "\tif route.passesThrough(route.OriginAgent) {\n\t\treturn false\n\t}\n"},
+				{File: fw, Old: "// sortRoutes sorts routes for a key by metric (lowest first).\n", New: "func (r *ForwardRoute) passesThrough(id identity.AgentID) bool {\n\tfor _, hop := range r.Path {\n\t\tif hop == id {\n\t\t\treturn true\n\t\t}\n\t}\n\treturn false\n}\n\n// sortRoutes sorts routes for a key by metric (lowest first).\n"},
+			}},
 			// rewrites
 			{Name: "rewrite: operands swapped, !(a<=b), nested ifs", Edits: []Edit{
 				{File: tb, Old: upd, New: "\t\t\tif !(route.Sequence <= r.Sequence) ||\n\t\t\t\t(r.Sequence == route.Sequence && r.Metric > route.Metric) {\n"},
@@ -169,6 +197,12 @@ func init() {
 			{Name: "insertion helper also called before the loop check (ForwardTable)", ExpectRule: "C10.R2", ExpectKey: "ForwardTable", Edits: []Edit{
 				{File: fw, Old: "\t// New route from this origin\n\tcloned := route.Clone()\n\tcloned.LastUpdate = time.Now()\n\tt.routes[key] = append(t.routes[key], cloned)\n\tt.sortRoutes(key)\n\treturn true\n}", New: "\tt.insert(key, route.Clone())\n\treturn true\n}\n\nfunc (t *ForwardTable) insert(key string, r *ForwardRoute) {\n\tr.LastUpdate = time.Now()\n\tt.routes[key] = append(t.routes[key], r)\n\tt.sortRoutes(key)\n}\n\n// AddStatic stores a route without the loop check.\nfunc (t *ForwardTable) AddStatic(route *ForwardRoute) {\n\tt.mu.Lock()\n\tdefer t.mu.Unlock()\n\tt.insert(route.Key, route.Clone())\n}"},
 			}},
+			{Name: "round3 rewrite: table-driven disconnect handler", Edits: []Edit{
+				{File: aa, Old: "\ta.routeMgr.HandlePeerDisconnect(peerID)\n\ta.routeMgr.HandlePeerDisconnectDomain(peerID)\n\ta.routeMgr.HandlePeerDisconnectForward(peerID)\n\ta.routeMgr.HandlePeerDisconnectAgent(peerID)\n", New: "\tfor _, forget := range []func(identity.AgentID) int{\n\t\ta.routeMgr.HandlePeerDisconnect,\n\t\ta.routeMgr.HandlePeerDisconnectDomain,\n\t\ta.routeMgr.HandlePeerDisconnectForward,\n\t\ta.routeMgr.HandlePeerDisconnectAgent,\n\t} {\n\t\tforget(peerID)\n\t}\n"},
+			}},
+			{Name: "round3: table-driven handler without the forward table", ExpectRule: "C10.R5", ExpectKey: "ForwardTable", Edits: []Edit{
+				{File: aa, Old: "\ta.routeMgr.HandlePeerDisconnect(peerID)\n\ta.routeMgr.HandlePeerDisconnectDomain(peerID)\n\ta.routeMgr.HandlePeerDisconnectForward(peerID)\n\ta.routeMgr.HandlePeerDisconnectAgent(peerID)\n", New: "\tfor _, forget := range []func(identity.AgentID) int{\n\t\ta.routeMgr.HandlePeerDisconnect,\n\t\ta.routeMgr.HandlePeerDisconnectDomain,\n\t\ta.routeMgr.HandlePeerDisconnectAgent,\n\t} {\n\t\tforget(peerID)\n\t}\n"},
+			}},
 			{Name: "rewrite: handler calls reordered, explicit peer id variable", Edits: []Edit{
 				{File: aa, Old: "\ta.routeMgr.HandlePeerDisconnect(peerID)\n\ta.routeMgr.HandlePeerDisconnectDomain(peerID)\n\ta.routeMgr.HandlePeerDisconnectForward(peerID)\n\ta.routeMgr.HandlePeerDisconnectAgent(peerID)\n", New: "\tmgr, gone := a.routeMgr, conn.RemoteID\n\tmgr.HandlePeerDisconnectAgent(gone)\n\tmgr.HandlePeerDisconnectForward(gone)\n\tmgr.HandlePeerDisconnectDomain(gone)\n\tmgr.HandlePeerDisconnect(gone)\n"},
 			}},
@@ -200,7 +234,7 @@ func runC10(p *kit.Program, r *kit.Report) {
 
 // c10FieldOf: v is a load of field f of base.
 func c10FieldOf(v ssa.Value) (*types.Var, ssa.Value) {
-	return kit.LoadedField(kit.Unwrap(v))
+	return c08Field(kit.Unwrap(c08Resolve(v)))
 }
 
 // c10RouteParam returns the parameter of fn of type *R.
@@ -272,11 +306,13 @@ func (m *c08Model) c10Update(r *kit.Report, t *c08Table) {
 		}
 		// classify "new.f" / "old.f"
 		side := func(v ssa.Value, sub c08Sub) (f *types.Var, who string, idx ssa.Value) {
+			// a scalar parameter of a predicate helper stands for the caller's argument
+			v = c08Subst(kit.Unwrap(v), sub)
 			fld, base := c10FieldOf(v)
 			if fld == nil {
 				return nil, "", nil
 			}
-			base = c08Subst(base, sub)
+			base = c08Resolve(c08Subst(base, sub))
 			if base == ssa.Value(route) {
 				return fld, "new", nil
 			}
@@ -287,6 +323,7 @@ func (m *c08Model) c10Update(r *kit.Report, t *c08Table) {
 		}
 		var hdr *ssa.BasicBlock
 		var loopIdx ssa.Value
+		var slotCall *ssa.Call
 		idFields := map[*types.Var]bool{}
 		nCmp := 0
 		mixed := false
@@ -319,9 +356,17 @@ func (m *c08Model) c10Update(r *kit.Report, t *c08Table) {
 				}
 				phi, ok := c08LoopIndex(idx)
 				if !ok {
-					return
-				}
-				if hdr == nil {
+					// the stored entry was located by slices.IndexFunc(bucket, samePredicate)
+					sc := c10SlotCall(idx)
+					if sc == nil {
+						return
+					}
+					if slotCall == nil {
+						slotCall = sc
+					} else if slotCall != sc {
+						mixed = true
+					}
+				} else if hdr == nil {
 					hdr, loopIdx = phi.Block(), idx
 				} else if hdr != phi.Block() {
 					mixed = true
@@ -340,14 +385,48 @@ func (m *c08Model) c10Update(r *kit.Report, t *c08Table) {
 			})
 		}
 		collect(fn, nil, 0)
-		if hdr == nil || nCmp == 0 || mixed {
+		if hdr != nil && slotCall != nil {
+			mixed = true
+		}
+		var slotPred *ssa.Function
+		if slotCall != nil && !mixed {
+			loopIdx = slotCall
+			switch f := slotCall.Call.Args[1].(type) {
+			case *ssa.MakeClosure:
+				slotPred, _ = f.Fn.(*ssa.Function)
+			case *ssa.Function:
+				slotPred = f
+			}
+			if slotPred != nil && len(slotPred.Params) == 1 {
+				// identity fields: what the predicate compares between its element and the new route
+				kit.Instrs(slotPred, func(in ssa.Instruction) {
+					b, ok := in.(*ssa.BinOp)
+					if !ok || (b.Op != token.EQL && b.Op != token.NEQ) {
+						return
+					}
+					fx, bx := c10FieldOf(b.X)
+					fy, by := c10FieldOf(b.Y)
+					if fx == nil || fx != fy {
+						return
+					}
+					prm := ssa.Value(slotPred.Params[0])
+					if (bx == prm && by == ssa.Value(route)) || (by == prm && bx == ssa.Value(route)) {
+						idFields[fx] = true
+					}
+				})
+			}
+		}
+		if (hdr == nil && slotCall == nil) || nCmp == 0 || mixed || (slotCall != nil && (slotPred == nil || len(slotPred.Params) != 1)) {
 			r.Violation("C10.R1", key, pos, "a stored entry is overwritten but no comparison of the new route's Sequence/Metric with that entry, made in the same loop over the stored entries, governs it (decision taken elsewhere, e.g. in an earlier pass under another lock, or not at all): an older or worse route replaces a newer one")
 			continue
 		}
-		body, exit := c08LoopSuccs(hdr)
-		if body == nil || exit == nil {
-			r.Violation("C10.R1", key, pos, "cannot delimit the loop over the stored entries")
-			continue
+		var body, exit *ssa.BasicBlock
+		if slotCall == nil {
+			body, exit = c08LoopSuccs(hdr)
+			if body == nil || exit == nil {
+				r.Violation("C10.R1", key, pos, "cannot delimit the loop over the stored entries")
+				continue
+			}
 		}
 		var idList []*types.Var
 		for f := range idFields {
@@ -366,6 +445,7 @@ func (m *c08Model) c10Update(r *kit.Report, t *c08Table) {
 		type scen struct {
 			differ        *types.Var // identity field that differs (nil: same entry)
 			oSeq, oMetric kit.Ordering
+			slot          int64 // IndexFunc form: the index found (-1: no entry of this identity)
 		}
 		var atomSub func(s scen, sub c08Sub, depth int) kit.AtomEval
 		atomFor := func(s scen) kit.AtomEval { return atomSub(s, nil, 0) }
@@ -379,6 +459,19 @@ func (m *c08Model) c10Update(r *kit.Report, t *c08Table) {
 				b, ok := c.(*ssa.BinOp)
 				if !ok {
 					return false, false
+				}
+				if slotCall != nil && sub == nil {
+					// comparisons of the found index with a constant
+					if kit.Unwrap(b.X) == ssa.Value(slotCall) {
+						if k, ok := kit.ConstInt(b.Y); ok {
+							return kit.CmpUnder(b.Op, c08Sign(s.slot-k)), true
+						}
+					}
+					if kit.Unwrap(b.Y) == ssa.Value(slotCall) {
+						if k, ok := kit.ConstInt(b.X); ok {
+							return kit.CmpUnder(b.Op, c08Sign(k-s.slot)), true
+						}
+					}
 				}
 				fx, wx, _ := side(b.X, sub)
 				fy, wy, _ := side(b.Y, sub)
@@ -421,11 +514,52 @@ func (m *c08Model) c10Update(r *kit.Report, t *c08Table) {
 			if ev.kind == "inplace" {
 				return true
 			}
-			v := ev.val
-			if c, ok := v.(*ssa.Call); ok && len(c.Call.Args) >= 1 && c.Call.Args[0] == ssa.Value(route) {
+			v := c08Resolve(ev.val)
+			if c, ok := v.(*ssa.Call); ok && len(c.Call.Args) >= 1 && c08Resolve(c.Call.Args[0]) == ssa.Value(route) {
 				return true
 			}
 			return v == ssa.Value(route)
+		}
+		// one decision: in loop form an iteration of the loop, in IndexFunc form the code after the search
+		walk := func(s scen) kit.WalkResult {
+			if slotCall != nil {
+				return kit.WalkCFG(slotCall.Block(), atomFor(s), nil)
+			}
+			return kit.WalkCFG(body, atomFor(s), func(b *ssa.BasicBlock) bool { return b == hdr })
+		}
+		if slotCall != nil {
+			// the predicate selects exactly the entry of the same identity, in the same bucket
+			predAtom := func(s scen) kit.AtomEval {
+				return func(c ssa.Value) (bool, bool) {
+					b, ok := c.(*ssa.BinOp)
+					if !ok || (b.Op != token.EQL && b.Op != token.NEQ) {
+						return false, false
+					}
+					fx, _ := c10FieldOf(b.X)
+					fy, _ := c10FieldOf(b.Y)
+					if fx == nil || fx != fy || !idFields[fx] {
+						return false, false
+					}
+					if s.differ == fx {
+						return b.Op == token.NEQ, true
+					}
+					return b.Op == token.EQL, true
+				}
+			}
+			if v, ok := c08EvalPred(slotPred, predAtom(scen{})); !ok || !v {
+				bad = append(bad, "the predicate given to slices.IndexFunc does not accept the stored entry of the same identity")
+			}
+			for _, f := range idList {
+				if v, ok := c08EvalPred(slotPred, predAtom(scen{differ: f})); !ok || v {
+					bad = append(bad, "the predicate given to slices.IndexFunc accepts an entry with a different "+f.Name())
+				}
+			}
+			sb := m.bucketOf(slotCall.Call.Args[0])
+			for _, ev := range m.events {
+				if ev.fn == fn && (ev.kind == "replace" || ev.kind == "inplace") && ev.index == ssa.Value(slotCall) && !ev.bucket.same(sb) {
+					bad = append(bad, "the index found in one bucket is used to overwrite a slot of another bucket")
+				}
+			}
 		}
 		// decision and overwrite form one critical section of the table mutex (no check-then-act)
 		li := kit.Locks(fn)
@@ -495,7 +629,7 @@ func (m *c08Model) c10Update(r *kit.Report, t *c08Table) {
 				s := scen{oSeq: os, oMetric: om}
 				want := os == kit.Greater || (os == kit.Equal && om == kit.Less)
 				desc := fmt.Sprintf("seq %s, metric %s", c08OrdName(os), c08OrdName(om))
-				res := kit.WalkCFG(body, atomFor(s), func(b *ssa.BasicBlock) bool { return b == hdr })
+				res := walk(s)
 				if !res.Known {
 					bad = append(bad, desc+": the decision consults a condition at "+p.Pos(c08LastPos(res.Block))+" other than identity, sequence and metric comparisons")
 					continue
@@ -537,10 +671,25 @@ func (m *c08Model) c10Update(r *kit.Report, t *c08Table) {
 				}
 			}
 		}
+		if slotCall != nil {
+			// no entry of this identity: nothing may be overwritten
+			cells++
+			res := walk(scen{slot: -1, oSeq: kit.Greater, oMetric: kit.Less})
+			if res.Known {
+				for _, ev := range m.c10EventsOnPath(fn, res.Path, false) {
+					if ev.kind == "replace" || ev.kind == "inplace" {
+						bad = append(bad, "a slot is overwritten although no entry of the same identity was found (index -1)")
+					}
+				}
+			}
+		}
 		for _, f := range idList {
+			if slotCall != nil {
+				break // judged on the predicate above
+			}
 			cells++
 			s := scen{differ: f, oSeq: kit.Greater, oMetric: kit.Less}
-			res := kit.WalkCFG(body, atomFor(s), func(b *ssa.BasicBlock) bool { return b == hdr })
+			res := walk(s)
 			if !res.Known {
 				bad = append(bad, "entry with different "+f.Name()+": undecidable condition at "+p.Pos(c08LastPos(res.Block)))
 				continue
@@ -560,20 +709,63 @@ func (m *c08Model) c10Update(r *kit.Report, t *c08Table) {
 	}
 }
 
+// c10SlotCall: idx is the result of slices.IndexFunc(bucket, pred).
+func c10SlotCall(idx ssa.Value) *ssa.Call {
+	c, ok := c08Resolve(kit.Unwrap(idx)).(*ssa.Call)
+	if !ok || len(c.Call.Args) != 2 {
+		return nil
+	}
+	if cal := kit.CalleeOf(c); cal.Pkg == "slices" && cal.Name == "IndexFunc" {
+		return c
+	}
+	return nil
+}
+
 // ---------- R2 ----------
 
-// c10ContainsFn: g(list, id) / g(id, list) reports whether id occurs in list. Returns the
-// parameter indices.
-func c10ContainsFn(g *ssa.Function) (listIdx, idIdx int, ok bool) {
+// c10ContainsCall: call invokes a helper of the package that reports whether the table's own
+// id occurs in the route's path, whichever way the two reach it (list and id parameters in
+// any order, the route or the table passed instead, a method of either). The helper's values
+// are read in the caller's terms: a parameter stands for the argument passed.
+// Returns (is such a helper over route.Path, compares with the table's own id).
+func (m *c08Model) c10ContainsCall(t *c08Table, call *ssa.Call, isPath, isLocal func(ssa.Value) bool) (bool, bool) {
+	g := kit.CalleeOf(call).Static
 	if g == nil || len(g.Blocks) == 0 || g.Signature.Results().Len() != 1 {
-		return 0, 0, false
+		return false, false
 	}
 	if b, isb := g.Signature.Results().At(0).Type().Underlying().(*types.Basic); !isb || b.Kind() != types.Bool {
-		return 0, 0, false
+		return false, false
 	}
-	listIdx, idIdx = -1, -1
+	sub := c08Sub{}
+	for i, prm := range g.Params {
+		if i < len(call.Call.Args) {
+			sub[prm] = c08Resolve(call.Call.Args[i])
+		}
+	}
+	// translate a callee value into the caller's terms
+	inCaller := func(v ssa.Value, pred func(ssa.Value) bool, field *types.Var) bool {
+		v = c08Resolve(kit.Unwrap(v))
+		if prm, ok := v.(*ssa.Parameter); ok {
+			a, ok := sub[prm]
+			return ok && pred(a)
+		}
+		f, base := c10FieldOf(v)
+		if f == nil || f != field {
+			return false
+		}
+		prm, ok := base.(*ssa.Parameter)
+		if !ok {
+			return false
+		}
+		a, ok := sub[prm]
+		if !ok {
+			return false
+		}
+		// the helper reads X.field of its parameter X: in the caller that is field of the argument
+		return m.c10FieldOfArg(a, field, pred)
+	}
 	var eqIf *ssa.If
-	var eqPol bool
+	eqPol, isPathScan, rightID := false, false, false
 	for _, blk := range g.Blocks {
 		ifi, isIf := blk.Instrs[len(blk.Instrs)-1].(*ssa.If)
 		if !isIf {
@@ -590,27 +782,37 @@ func c10ContainsFn(g *ssa.Function) (listIdx, idIdx int, ok bool) {
 				continue
 			}
 			ia, isia := u.X.(*ssa.IndexAddr)
-			if !isia {
+			if !isia || !c10FullScan(ia) {
 				continue
 			}
-			lp, isl := ia.X.(*ssa.Parameter)
-			ip, isi := pr[1].(*ssa.Parameter)
-			if !isl || !isi || !c10FullScan(ia) {
+			if !inCaller(ia.X, isPath, t.rf["Path"]) {
 				continue
 			}
-			for i, q := range g.Params {
-				if q == lp {
-					listIdx = i
-				}
-				if q == ip {
-					idIdx = i
-				}
-			}
+			isPathScan = true
 			eqIf, eqPol = ifi, pol == (b.Op == token.EQL)
+			rightID = inCaller(pr[1], isLocal, t.localID)
 		}
 	}
-	if eqIf == nil || listIdx < 0 || idIdx < 0 {
-		return 0, 0, false
+	if !isPathScan {
+		// slices.Contains inside the helper
+		for _, c := range kit.Calls(g) {
+			cc, ok := c.(*ssa.Call)
+			if !ok {
+				continue
+			}
+			if cal := kit.CalleeOf(cc); cal.Pkg == "slices" && cal.Name == "Contains" && len(cc.Call.Args) == 2 && inCaller(cc.Call.Args[0], isPath, t.rf["Path"]) {
+				allRet := true
+				for _, ret := range kit.Returns(g) {
+					if kit.ReturnResult(ret, 0) != ssa.Value(cc) {
+						allRet = false
+					}
+				}
+				if allRet {
+					return true, inCaller(cc.Call.Args[1], isLocal, t.localID)
+				}
+			}
+		}
+		return false, false
 	}
 	eqSucc := eqIf.Block().Succs[0]
 	if !eqPol {
@@ -619,14 +821,52 @@ func c10ContainsFn(g *ssa.Function) (listIdx, idIdx int, ok bool) {
 	for _, ret := range kit.Returns(g) {
 		v, isc := kit.ConstBool(kit.ReturnResult(ret, 0))
 		if !isc {
-			return 0, 0, false
+			return false, false
 		}
 		inEq := ret.Block() == eqSucc || eqSucc.Dominates(ret.Block())
 		if v != inEq {
-			return 0, 0, false
+			return false, false
 		}
 	}
-	return listIdx, idIdx, true
+	return true, rightID
+}
+
+// c10FieldOfArg: arg.field, read in the caller, satisfies pred. pred recognises loads of the
+// field (route.Path / t.localID); here only the owner is known, so the owner is matched against
+// what pred accepts: pred is applied to a synthetic description — the owner must be the route
+// parameter (Path) or the receiver (own id) of the calling function.
+func (m *c08Model) c10FieldOfArg(owner ssa.Value, field *types.Var, pred func(ssa.Value) bool) bool {
+	fn := owner.Parent()
+	if fn == nil {
+		return false
+	}
+	// find any load of owner.field in the caller and ask pred about it; if the caller never
+	// loads it, compare owners structurally
+	found, res := false, false
+	kit.Instrs(fn, func(in ssa.Instruction) {
+		v, ok := in.(ssa.Value)
+		if !ok || found {
+			return
+		}
+		if f, base := c10FieldOf(v); f == field && base == c08Resolve(owner) {
+			if _, isLoad := c08Resolve(v).(*ssa.UnOp); isLoad {
+				found, res = true, pred(v)
+			}
+		}
+	})
+	if found {
+		return res
+	}
+	owner = c08Resolve(owner)
+	if prm, ok := owner.(*ssa.Parameter); ok {
+		if c08RouteOfPtr(prm.Type()) != nil && field.Name() == "Path" {
+			return true
+		}
+		if len(fn.Params) > 0 && prm == fn.Params[0] && fn.Signature.Recv() != nil && field.Name() != "Path" {
+			return true
+		}
+	}
+	return false
 }
 
 // c10FullScan: the index of ia runs over the whole slice from element 0 upwards.
@@ -751,10 +991,10 @@ func (m *c08Model) c10GuardedAt(t *c08Table, fn *ssa.Function, site ssa.Instruct
 				}
 				continue
 			}
-			if li, ii, isC := c10ContainsFn(cal.Static); isC && li < len(args) && ii < len(args) {
-				if isPath(args[li]) && isLocal(args[ii]) {
+			if isC, rightID := m.c10ContainsCall(t, call, isPath, isLocal); isC {
+				if rightID {
 					okCheck = true
-				} else if isPath(args[li]) {
+				} else {
 					why = "the contains-helper at " + p.Pos(call.Pos()) + " searches route.Path for something other than the table's own id"
 				}
 			}
@@ -918,7 +1158,7 @@ func (m *c08Model) c10Filters(r *kit.Report, t *c08Table, rootName, rule string)
 		fn := order[i]
 		kit.Instrs(fn, func(in ssa.Instruction) {
 			if v, ok := in.(ssa.Value); ok {
-				if f, _ := kit.LoadedField(v); f != nil {
+				if f, _ := c08Field(v); f != nil {
 					for _, bf := range t.buckets {
 						if bf == f {
 							fieldsSeen[f] = true
@@ -1345,7 +1585,36 @@ func (m *c08Model) c10Handler(r *kit.Report) {
 				continue
 			}
 			g := kit.CalleeOf(c).Static
-			if g == nil || len(g.Blocks) == 0 {
+			if g == nil {
+				// table-driven form: a func value called with the peer id (resolved through the call graph)
+				passes := false
+				for _, a := range c.Common().Args {
+					if fr.peer[a] || (fr.fn == handler && fromConn(a)) {
+						passes = true
+					}
+				}
+				if !passes || c.Common().IsInvoke() || fr.depth >= 3 {
+					continue
+				}
+				first := fr.first
+				if first == nil {
+					first = c
+				}
+				for _, dg := range p.CalleesAt(c) {
+					if dg == nil || len(dg.Blocks) == 0 {
+						continue
+					}
+					np := map[ssa.Value]bool{}
+					for j, a := range c.Common().Args {
+						if j < len(dg.Params) && (fr.peer[a] || (fr.fn == handler && fromConn(a))) {
+							np[dg.Params[j]] = true
+						}
+					}
+					visit(frame{fn: dg, peer: np, first: first, depth: fr.depth + 1})
+				}
+				continue
+			}
+			if len(g.Blocks) == 0 {
 				continue
 			}
 			first := fr.first
@@ -1361,16 +1630,14 @@ func (m *c08Model) c10Handler(r *kit.Report) {
 						h.why = "the id passed at " + p.Pos(c.Pos()) + " is not the disconnected connection's RemoteID"
 					}
 					// on every path of the calling wrapper
-					for _, ret := range kit.Returns(fr.fn) {
-						if ret.Block() != fr.fn.Recover && len(fr.fn.Blocks) > 0 && c08ReachAvoidingFromEntry(fr.fn, ret, c) {
-							h.ok, h.why = false, kit.FuncName(fr.fn)+" can return without calling "+kit.FuncName(g)
-						}
+					if !c10OnEveryPath(fr.fn, c) {
+						h.ok, h.why = false, kit.FuncName(fr.fn)+" can return without calling "+kit.FuncName(g)
 					}
 					reached[m.byType[n]] = append(reached[m.byType[n]], h)
 					continue
 				}
 			}
-			if fr.depth >= 3 || !(kit.FuncPkgPath(g) == kit.PkgPath(c08Pkg) || kit.FuncPkgPath(g) == kit.PkgPath("internal/agent")) {
+			if fr.depth >= 3 || !(g.Synthetic != "" || kit.FuncPkgPath(g) == kit.PkgPath(c08Pkg) || kit.FuncPkgPath(g) == kit.PkgPath("internal/agent")) {
 				continue
 			}
 			np := map[ssa.Value]bool{}
@@ -1404,12 +1671,9 @@ func (m *c08Model) c10Handler(r *kit.Report) {
 				continue
 			}
 			// the first call of the chain lies on every path of the handler
-			every := true
-			for _, ret := range kit.Returns(handler) {
-				if ret.Block() != handler.Recover && c08ReachAvoidingFromEntry(handler, ret, h.call) {
-					every = false
-					why = "the handler can return without the call at " + p.Pos(h.call.Pos()) + " (conditional cleanup)"
-				}
+			every := c10OnEveryPath(handler, h.call)
+			if !every {
+				why = "the handler can return without the call at " + p.Pos(h.call.Pos()) + " (conditional cleanup)"
 			}
 			if every {
 				good = true
@@ -1420,6 +1684,89 @@ func (m *c08Model) c10Handler(r *kit.Report) {
 			why+": routes learned through the disconnected peer stay in "+t.name)
 	}
 	r.Count("disconnect_tables", len(m.tables))
+}
+
+// c10OnEveryPath: call executes on every path from the entry of fn to each of its returns. A
+// call in the body of a loop that ranges over a non-empty array/slice literal (table-driven
+// code) counts when the loop is on every path and every iteration passes the call.
+func c10OnEveryPath(fn *ssa.Function, call ssa.Instruction) bool {
+	if len(fn.Blocks) == 0 {
+		return false
+	}
+	all := true
+	for _, ret := range kit.Returns(fn) {
+		if ret.Block() != fn.Recover && c08ReachAvoidingFromEntry(fn, ret, call) {
+			all = false
+		}
+	}
+	if all {
+		return true
+	}
+	for _, h := range fn.Blocks {
+		if !h.Dominates(call.Block()) || h == call.Block() {
+			continue
+		}
+		loop := c08NaturalLoop(h)
+		if len(loop) < 2 || !loop[call.Block()] || !c10LiteralRange(h) || len(h.Instrs) == 0 {
+			continue
+		}
+		body, _ := c08LoopSuccs(h)
+		if body == nil || len(body.Instrs) == 0 {
+			continue
+		}
+		hFirst := h.Instrs[0]
+		onPath := true
+		for _, ret := range kit.Returns(fn) {
+			if ret.Block() != fn.Recover && c08ReachAvoidingFromEntry(fn, ret, hFirst) {
+				onPath = false
+			}
+		}
+		if !onPath {
+			continue
+		}
+		if body.Instrs[0] != call && kit.CanReachAvoiding(body.Instrs[0], hFirst, map[ssa.Instruction]bool{call: true}) {
+			continue
+		}
+		return true
+	}
+	return false
+}
+
+// c10LiteralRange: h is the header of a range loop over an array/slice literal of constant
+// non-zero length.
+func c10LiteralRange(h *ssa.BasicBlock) bool {
+	ifi, ok := h.Instrs[len(h.Instrs)-1].(*ssa.If)
+	if !ok {
+		return false
+	}
+	b, ok := ifi.Cond.(*ssa.BinOp)
+	if !ok || b.Op != token.LSS {
+		return false
+	}
+	if _, isIdx := c08LoopIndex(b.X); !isIdx {
+		return false
+	}
+	if n, ok := kit.ConstInt(b.Y); ok {
+		return n > 0
+	}
+	cl, ok := b.Y.(*ssa.Call)
+	if !ok || kit.CalleeOf(cl).Built != "len" {
+		return false
+	}
+	sl, ok := c08Resolve(cl.Call.Args[0]).(*ssa.Slice)
+	if !ok {
+		return false
+	}
+	a, ok := sl.X.(*ssa.Alloc)
+	if !ok {
+		return false
+	}
+	if pt, ok := a.Type().Underlying().(*types.Pointer); ok {
+		if arr, ok := pt.Elem().Underlying().(*types.Array); ok {
+			return arr.Len() > 0
+		}
+	}
+	return false
 }
 
 func c08DerefNamed(t types.Type) (*types.Named, bool) {
